@@ -18,7 +18,9 @@ RULE = ('three streams. ulist: raw lists (len 0-7, repeats likely) over a pool o
         'internally (key, value, args, kwargs, function, res, callables, keys, cls), and a malformed stream with missing arguments; callables are free terms '
         '[k, arg1, ...] so any change of evaluation order or argument is visible. Compared in Coq: result (class, ordered items / values / error), the operand '
         'and the other operand after the call. The oracle recomputes the result from the property text with plain list/dict code and checks class, value identity '
-        'and operand immutability. non-trivial = repeats or overlap (ulist), mixed / absent / repeated selection or overlapping update (dict), >= 2 callables '
+        'and operand immutability. Also: elements of further kinds (inf, 0.5, bytes, frozenset, 10**20), lists of 100-300 elements, constructor given a tuple / generator, ulist operands; '
+        'key names that are dict attribute names / private-looking / Python keywords / non-identifiers / implementation names, mappings of 120 keys with selections '
+        'of 101, selections spelled as ulist / dict_keys / 1-tuple, rename alias, str.upper relabel, Dict.__call__ on a 150-entry mapping. non-trivial = repeats or overlap (ulist), mixed / absent / repeated selection or overlapping update (dict), >= 2 callables '
         'with >= 1 edge (call); distinct by full input')
 EXPLANATION = ('theorems C16_* (coq/props/C16.v) hold for all lists over any type with a decidable equivalence, all ordered string-keyed mappings and all '
                'dependency graphs with arbitrary callables, every keyword permutation, no size bound; the correspondence ties the models in M_keys.v to '
@@ -39,8 +41,12 @@ TECHNIQUE = 'Coq proof (induction, invariant over the round loop, uniqueness of 
 INCLUDE_SUBCLASS_OTHER = True     # generate Dict-family + user-subclass operands (the known finding class)
 
 # ------------------------------------------------------------------ element coding (ulist)
+# further hashables, each equal only to itself (HOther t in the model)
+OTHERS = {1: float('inf'), 2: float('-inf'), 3: 0.5, 4: -1.5, 5: b'a', 6: frozenset({1}), 7: b'', 8: frozenset()}
+
 def dec(e):
     if isinstance(e, dict):
+        if 'o' in e: return OTHERS[e['o']]
         if 'f' in e: return float(e['f'])
         if 'b' in e: return bool(e['b'])
         if 't' in e: return tuple(dec(x) for x in e['t'])
@@ -50,6 +56,8 @@ def canon(x):
     if x is None or isinstance(x, str): return x
     if isinstance(x, bool): return ['b', int(x)]
     if isinstance(x, int): return x
+    for t, o in OTHERS.items():
+        if type(o) is type(x) and o == x: return ['o', t]
     if isinstance(x, float): return ['f', int(x)]
     if isinstance(x, tuple): return ['t'] + [canon(y) for y in x]
     raise TypeError(x)
@@ -60,6 +68,7 @@ def coq_hv(e):
     if e is None: return 'HNone'
     if isinstance(e, str): return '(HStr %s)' % coq_str(e)
     if isinstance(e, int): return '(HInt (%d))' % e
+    if 'o' in e: return '(HOther (%d))' % e['o']
     if 'f' in e: return '(HFloat (%d))' % e['f']
     if 'b' in e: return '(HBool %s)' % ('true' if e['b'] else 'false')
     return '(HTup [%s])' % '; '.join(coq_hv(x) for x in e['t'])
@@ -75,9 +84,14 @@ def coq_runner(case):
     if k == 'dict': return 'run_dict'
     return 'run_call' if case.get('perms', 'all') == 'all' else 'run_call_one'
 
-def coq_other(o, enc):
+def coq_other(o, enc, eqb='hv_eqb'):
     if 'elem' in o: return '(OElem %s)' % enc(o['elem'])
+    if 'ulist' in o: return '(OList (mk %s [%s]))' % (eqb, '; '.join(enc(x) for x in o['ulist']))      # the operand is itself a ulist
     return '(OList [%s])' % '; '.join(enc(x) for x in o['list'])
+def coq_sel(case):
+    """the selection as the list of keys the operator finally sees: a ulist / dict_keys operand arrives without repeats"""
+    if case.get('form') in ('ulist', 'dict_keys'): return '(mk String.eqb %s)' % coq_strs(case['sel'])
+    return coq_strs(case['sel'])
 
 def coq_case(case):
     k = case['kind']
@@ -87,7 +101,7 @@ def coq_case(case):
     if k == 'dict':
         op = case['op']
         if op in ('sub', 'and', 'getlist', 'gettuple'):
-            t = '(%s %s)' % ({'sub': 'OpSub', 'and': 'OpAnd', 'getlist': 'OpGetList', 'gettuple': 'OpGetTuple'}[op], coq_strs(case['sel']))
+            t = '(%s %s)' % ({'sub': 'OpSub', 'and': 'OpAnd', 'getlist': 'OpGetList', 'gettuple': 'OpGetTuple'}[op], coq_sel(case))
         elif op == 'attr':
             t = '(OpAttr %s)' % coq_str(case['sel'][0])
         elif op in ('add', 'or'):
@@ -98,13 +112,14 @@ def coq_case(case):
             elif 'affix' in a: ra = '(RAffix %s)' % coq_str(a['affix'])
             elif 'names' in a: ra = '(RNames %s)' % coq_strs(a['names'])
             elif 'double' in a: ra = 'RDouble'
+            elif 'upper' in a: ra = 'RUpper'
             else: ra = '(RDict [%s])' % '; '.join('(%s, %s)' % (coq_str(o), coq_str(n)) for o, n in a['dict'])
             t = '(OpRelabel %s [%s])' % (ra, '; '.join('(%s, %s)' % (coq_str(o), coq_str(n)) for o, n in case['kw']))
         elif op == 'keys':
             t = 'OpKeys'
         else:
-            sel = {'elem': case['sel'][0]} if case['form'] == 'str' else {'list': case['sel']}
-            t = '(%s %s)' % ({'keys_sub': 'OpKeysSub', 'keys_and': 'OpKeysAnd', 'keys_add': 'OpKeysAdd'}[op], coq_other(sel, coq_str))
+            sel = {'elem': case['sel'][0]} if case['form'] == 'str' else {'ulist': case['sel']} if case['form'] == 'ulist' else {'list': case['sel']}
+            t = '(%s %s)' % ({'keys_sub': 'OpKeysSub', 'keys_and': 'OpKeysAnd', 'keys_add': 'OpKeysAdd'}[op], coq_other(sel, coq_str, 'String.eqb'))
         return '(%s, %s, %s)' % (CLS[case['cls']], coq_items(case['items']), t)
     kw = '[' + '; '.join('(%s, %s)' % (coq_str(k), '(KConst (%d))' % v['c'] if 'c' in v else '(KFun %s)' % coq_strs(v['f'])) for k, v in case['kw']) + ']'
     return '(%s, %s, %s)' % (CLS[case['cls']], coq_items(case['base']), kw)
@@ -133,7 +148,8 @@ def impl_ulist(case):
     cls = CLASSES[case.get('cls', 'ulist')]
     raw = [dec(e) for e in case['raw']]
     raw0 = list(raw)
-    u = cls(raw)
+    src = case.get('src', 'list')
+    u = cls(raw) if src == 'list' else cls(tuple(raw)) if src == 'tuple' else cls(x for x in raw)
     exp_u = first_occ(raw0)
     viol = None
     if type(u) is not cls: viol = 'constructor returned %s' % type(u).__name__
@@ -143,7 +159,7 @@ def impl_ulist(case):
     if op == 'init':
         return {'status': 'ok', 'obs': [[canon(x) for x in u], [canon(x) for x in u]], 'viol': viol}
     o = case['other']
-    other = dec(o['elem']) if 'elem' in o else [dec(x) for x in o['list']]
+    other = dec(o['elem']) if 'elem' in o else ulist([dec(x) for x in o['ulist']]) if 'ulist' in o else [dec(x) for x in o['list']]
     ol = [other] if 'elem' in o else list(other)
     u0 = list(u)
     try:
@@ -158,7 +174,7 @@ def impl_ulist(case):
         elif list(r) != exp: viol = '%r %s %r = %r, expected %r' % (u0, op, other, list(r), exp)
         elif any(r[i] == r[j] for i in range(len(r)) for j in range(i)): viol = 'result %r has duplicates' % (list(r),)
         elif len(u) != len(u0) or not all(a is b for a, b in zip(u, u0)): viol = 'operand changed: %r -> %r' % (u0, list(u))
-        elif 'list' in o and not (len(other) == len(ol) and all(a is b for a, b in zip(other, ol))): viol = 'other operand changed'
+        elif 'elem' not in o and not (len(other) == len(ol) and all(a is b for a, b in zip(other, ol))): viol = 'other operand changed'
     return {'status': 'ok', 'obs': [[canon(x) for x in r], [canon(x) for x in u]], 'viol': viol}
 
 class Leaf(list):
@@ -182,6 +198,9 @@ def impl_dict(case):
         if form == 'str': return sel[0]
         if form == 'tuple': return tuple(sel)
         if form == 'none': return None
+        if form == 'tuple1': return (sel[0],)
+        if form == 'ulist': return ulist(list(sel))
+        if form == 'dict_keys': return dict.fromkeys(sel).keys()
         return list(sel)
     claim = True          # does the property text fix the result for this input?
     exp = None            # expected ordered items (list of (key, value object)) / values / keys
@@ -190,7 +209,7 @@ def impl_dict(case):
     elif op == 'and':
         f = lambda: d & spelled(); exp = ('map', [(k, v) for k, v in before if k in sel])
     elif op == 'getlist':
-        f = lambda: d[list(sel)]
+        f = lambda: d[spelled()]
         if all(k in dict(before) for k in sel): exp = ('map', [(k, dict(before)[k]) for k in first_occ(sel)])
         else: exp = ('err', 'KeyError')          # item access of an absent key
     elif op == 'gettuple':
@@ -214,8 +233,9 @@ def impl_dict(case):
         elif 'affix' in a: args = (a['affix'],)
         elif 'names' in a: args = (list(a['names']),) if a.get('form', 'list') == 'list' else tuple(a['names'])
         elif 'double' in a: args = (lambda k: k * 2,)
+        elif 'upper' in a: args = (str.upper,)
         else: args = (dict((o, n) for o, n in a['dict']),)
-        f = lambda: d.relabel(*args, **kw)
+        f = (lambda: d.rename(*args, **kw)) if case.get('alias') == 'rename' else (lambda: d.relabel(*args, **kw))
         keys = [k for k, _ in before]
         new = {}
         if 'affix' in a:
@@ -227,6 +247,7 @@ def impl_dict(case):
             if len(a['names']) == len(keys) and len(keys) != 1: new = dict(zip(keys, a['names']))
             else: claim = False
         elif 'double' in a: new = {k: k + k for k in keys}
+        elif 'upper' in a: new = {k: k.upper() for k in keys}
         elif 'dict' in a: new = dict((o, n) for o, n in a['dict'])
         new.update(kw)
         m = {}
@@ -350,7 +371,7 @@ def nontrivial(case, result):
         vals = [dec(e) for e in case['raw']]
         rep = len(first_occ(vals)) < len(vals)
         if case['op'] == 'init': return rep
-        o = case['other']; ol = [dec(o['elem'])] if 'elem' in o else [dec(x) for x in o['list']]
+        o = case['other']; ol = [dec(o['elem'])] if 'elem' in o else [dec(x) for x in o.get('list', o.get('ulist'))]
         return rep or any(x == y for x in ol for y in vals)
     if k == 'dict':
         keys = [k for k, _ in case['items']]
@@ -373,21 +394,34 @@ def shape(case):
     return 'call:n%d' % n
 
 # ------------------------------------------------------------------ generation
-POOL = [0, 1, 2, 3, -1, {'f': 0}, {'f': 1}, {'f': 2}, {'b': 0}, {'b': 1}, None, 'a', 'b', '1', '',
+POOL = [0, 1, 2, 3, -1, {'f': 0}, {'f': 1}, {'f': 2}, {'b': 0}, {'b': 1}, None, 'a', 'b', '1', '', 10 ** 20, -2 ** 63,
+        {'o': 1}, {'o': 2}, {'o': 3}, {'o': 4}, {'o': 5}, {'o': 6}, {'o': 7}, {'o': 8}, {'t': [{'o': 3}, 1]},
         {'t': []}, {'t': [1]}, {'t': [1, 2]}, {'t': [{'f': 1}, 2]}, {'t': [{'b': 1}, 2]}, {'t': ['a']}, {'t': [{'t': [1]}, 2]}, {'t': [None]}]
 SMALL = [1, {'f': 1}, {'b': 1}, 2, 'a', {'t': [1, 2]}, {'t': [{'f': 1}, 2]}, None]
 
 def gen_ulist(rng, tier):
     out = []
-    n = 1500 if tier == 'quick' else 30000
+    n = 1200 if tier == 'quick' else 30000
     for _ in range(n):
         pool = SMALL if rng.random() < 0.6 else POOL
         raw = [rng.choice(pool) for _ in range(rng.choice([0, 1, 2, 3, 4, 5, 7]))]
         op = rng.choice(['init', '+', '|', '-', '-', '&', '&', '+'])
         case = {'kind': 'ulist', 'cls': rng.choice(['ulist', 'ulist', 'U2']), 'raw': raw, 'op': op}
+        r = rng.random()
+        if r < 0.1: case['src'] = 'tuple'            # the constructor is given a tuple / a generator instead of a list
+        elif r < 0.2: case['src'] = 'gen'
         if op != 'init':
-            if rng.random() < 0.45: case['other'] = {'elem': rng.choice(pool)}
-            else: case['other'] = {'list': [rng.choice(pool) for _ in range(rng.choice([0, 1, 2, 3, 5]))]}
+            r = rng.random()
+            if r < 0.45: case['other'] = {'elem': rng.choice(pool)}
+            elif r < 0.9: case['other'] = {'list': [rng.choice(pool) for _ in range(rng.choice([0, 1, 2, 3, 5]))]}
+            else: case['other'] = {'ulist': [rng.choice(pool) for _ in range(rng.choice([0, 1, 3, 5]))]}       # the operand is itself a ulist
+        out.append(case)
+    # long lists (100-300 elements, few distinct values) against long operands
+    big = [0, 1, 2, 3, -1, 7, 10 ** 20, -10 ** 20, 2 ** 63, {'f': 1}, {'f': 2}, {'b': 1}, 'a', 'b', None, {'t': [1, 2]}, {'o': 1}, {'o': 3}, {'o': 5}] + list(range(20, 60))
+    for op in (['init', '+', '-', '&'] if tier == 'quick' else ['init', '+', '-', '&', '|'] * 6):
+        raw = [rng.choice(big) for _ in range(rng.choice([101, 150, 300]))]
+        case = {'kind': 'ulist', 'cls': 'ulist', 'raw': raw, 'op': op}
+        if op != 'init': case['other'] = {'list': [rng.choice(big) for _ in range(rng.choice([1, 120]))]}
         out.append(case)
     # every list of length <= 3 over three ==-colliding values and one other, every operator, element operands
     vals = [1, {'f': 1}, {'b': 1}, 2]
@@ -418,7 +452,7 @@ def rand_sel(rng, keys):
 
 def gen_dict(rng, tier):
     out = []
-    n = 2500 if tier == 'quick' else 40000
+    n = 2100 if tier == 'quick' else 40000
     ops = ['sub', 'and', 'getlist', 'gettuple', 'attr', 'add', 'add', 'or', 'relabel', 'relabel', 'keys', 'keys_sub', 'keys_and', 'keys_add']
     for _ in range(n):
         cls = rng.choice(DCLASSES); items = rand_items(rng); keys = [k for k, _ in items]
@@ -426,11 +460,13 @@ def gen_dict(rng, tier):
         case = {'kind': 'dict', 'cls': cls, 'items': items, 'op': op}
         if op in ('sub', 'and', 'keys_sub', 'keys_and', 'keys_add'):
             sel = rand_sel(rng, keys)
-            forms = ['list'] + (['str'] if len(sel) == 1 else [])
-            if op == 'and': forms += ['tuple'] + (['none'] if not sel else [])
+            forms = ['list', 'list', 'ulist'] + (['str'] if len(sel) == 1 else [])
+            if op == 'and': forms += ['tuple', 'dict_keys'] + (['none'] if not sel else [])
+            if op == 'sub' and len(sel) == 1: forms += ['tuple1']
             case['sel'] = sel; case['form'] = rng.choice(forms)
         elif op in ('getlist', 'gettuple'):
             case['sel'] = rand_sel(rng, keys)
+            if op == 'getlist': case['form'] = rng.choice(['list', 'list', 'ulist', 'dict_keys'])
         elif op == 'attr':
             case['sel'] = [rng.choice(keys + ['zz', 'b'])]
         elif op in ('add', 'or'):
@@ -443,11 +479,52 @@ def gen_dict(rng, tier):
             elif r < 0.6:
                 m = len(keys) if rng.random() < 0.8 else rng.choice([0, 1, 2, 3])
                 arg = {'names': [rng.choice(['A', 'B', 'C', 'D', 'a', 'b']) for _ in range(m)], 'form': rng.choice(['list', 'args'])}
-            elif r < 0.75: arg = {'double': 1}
+            elif r < 0.7: arg = {'double': 1}
+            elif r < 0.78: arg = {'upper': 1}
             else: arg = {'dict': [[rng.choice(KEYS[:4]), rng.choice(['A', 'b', 'c', 'zz'])] for _ in range(rng.choice([0, 1, 2]))]}
             if 'dict' in arg and len(set(o for o, _ in arg['dict'])) < len(arg['dict']): arg = {'none': 1}
             kwk = rng.sample(KEYS[:5], rng.choice([0, 0, 1, 2]))
             case['arg'] = arg; case['kw'] = [[k, rng.choice(['A', 'b', 'c', 'zz', 'a'])] for k in kwk]
+            if rng.random() < 0.2: case['alias'] = 'rename'
+        out.append(case)
+    out += gen_odd_names(rng, tier) + gen_large_maps(rng, tier)
+    return out
+
+# key names that are attribute / method names, private-looking, Python keywords, not identifiers, or names used inside the implementation
+ODD_KEYS = ['_x', '__x', 'class', 'a b', '1', '', 'key', 'self', 'function', 'keys', 'items', 'copy', 'get', 'update', 'relabel', 'value', 'other', 'lambda']
+DICT_ATTRS = set(dir(dict)) | {'keys', 'values', 'copy', 'relabel', 'rename'}
+def gen_odd_names(rng, tier):
+    out = []
+    for _ in range(150 if tier == 'quick' else 3000):
+        ks = rng.sample(ODD_KEYS, rng.choice([1, 2, 3, 4])); items = [[k, i] for i, k in enumerate(ks)]
+        sel = [rng.choice(ks + ['zz', '_y']) for _ in range(rng.choice([1, 1, 2, 3]))]
+        op = rng.choice(['sub', 'and', 'getlist', 'gettuple', 'attr', 'add', 'or', 'relabel', 'keys_sub', 'keys_and'])
+        case = {'kind': 'dict', 'cls': rng.choice(DCLASSES), 'items': items, 'op': op}
+        if op in ('sub', 'and', 'keys_sub', 'keys_and'):
+            case['sel'] = sel; case['form'] = 'str' if len(sel) == 1 and rng.random() < 0.5 else 'list'
+        elif op in ('getlist', 'gettuple'): case['sel'] = sel
+        elif op == 'attr':
+            ok = [k for k in ks + ['_y', 'zz'] if k not in DICT_ATTRS]        # names of dict attributes are found by normal attribute lookup first
+            if not ok: continue
+            case['sel'] = [rng.choice(ok)]
+        elif op in ('add', 'or'):
+            case['other'] = {'cls': rng.choice(['dict', 'dictattr', 'Dict']), 'items': [[k, 100 + i] for i, k in enumerate(rng.sample(ODD_KEYS, 2))]}
+        else:        # relabel through the dict / affix / callable spellings (the keyword spelling cannot name 'self' or 'keys')
+            case['arg'] = rng.choice([{'affix': 'p_'}, {'affix': '_s'}, {'double': 1}, {'upper': 1}, {'dict': [[ks[0], rng.choice(ODD_KEYS)]]}]); case['kw'] = []
+        out.append(case)
+    return out
+
+def gen_large_maps(rng, tier):
+    out = []
+    keys = ['k%d' % i for i in range(130)]
+    for op in ['sub', 'and', 'getlist', 'gettuple', 'add', 'or', 'relabel', 'keys_sub'] * (1 if tier == 'quick' else 5):
+        items = [[k, i] for i, k in enumerate(rng.sample(keys, 120))]
+        sel = [rng.choice(keys) for _ in range(101)] if op != 'getlist' and op != 'gettuple' else [rng.choice([k for k, _ in items]) for _ in range(101)]
+        case = {'kind': 'dict', 'cls': rng.choice(DCLASSES), 'items': items, 'op': op}
+        if op in ('sub', 'and', 'keys_sub'): case['sel'] = sel; case['form'] = 'list'
+        elif op in ('getlist', 'gettuple'): case['sel'] = sel
+        elif op in ('add', 'or'): case['other'] = {'cls': 'dict', 'items': [[k, 1000 + i] for i, k in enumerate(rng.sample(keys, 110))]}
+        else: case['arg'] = {'affix': 'p_'}; case['kw'] = []
         out.append(case)
     return out
 
@@ -546,8 +623,17 @@ def gen_collide(rng, tier):
         out.append(case)
     return out
 
+def gen_large_call(rng, tier):
+    out = []
+    for _ in range(2 if tier == 'quick' else 20):
+        base = [['v%d' % i, i] for i in range(150)]
+        kw = [['a', {'f': ['v3', 'v149']}], ['b', {'f': ['a', 'v77']}], ['c', {'f': ['b', 'a', 'v0']}], ['v5', {'f': ['c']}]]
+        rng.shuffle(kw)
+        out.append({'kind': 'call', 'cls': rng.choice(['Dict', 'UD']), 'base': base, 'kw': kw, 'perms': 'all'})
+    return out
+
 def gen_cases(rng, tier):
-    return gen_ulist(rng, tier) + gen_dict(rng, tier) + gen_call(rng, tier) + gen_collide(rng, tier)
+    return gen_large_call(rng, tier) + gen_ulist(rng, tier) + gen_dict(rng, tier) + gen_call(rng, tier) + gen_collide(rng, tier)
 
 def shrink(case):
     k = case['kind']
